@@ -460,6 +460,8 @@ class Interp:
                 self._apply(st_, spec, PROTECTED)
             else:
                 ent = self.mdib.entities.by_handle(handle)
+                if ent is None:
+                    raise Skip  # (a concurrent writer removed the descriptor after the look-up above)
                 self._apply(ent.state, spec, PROTECTED)
                 mgr.write_entity(ent)
         info['touched'].add(handle)
@@ -480,6 +482,8 @@ class Interp:
                     self._apply(mgr.get_state(handle), spec, PROTECTED)
                 else:
                     ent = self.mdib.entities.by_handle(handle)
+                    if ent is None:
+                        raise Skip  # (a concurrent writer removed the descriptor after the look-up above)
                     self._apply(ent.state, spec, PROTECTED)
                     mgr.write_entity(ent)
                 info['touched'].add(handle)
@@ -512,6 +516,8 @@ class Interp:
                 self._set_assoc(mgr, st_, assoc)
             else:
                 ent = self.mdib.entities.by_handle(dhandle)
+                if ent is None:
+                    raise Skip  # (a concurrent writer removed the descriptor after the look-up above)
                 st_ = ent.new_state(shandle)
                 self._apply(st_, spec, PROTECTED)
                 self._set_assoc(mgr, st_, assoc)
@@ -531,6 +537,8 @@ class Interp:
                     self._set_assoc(mgr, st_, assoc)
             else:
                 ent = self.mdib.entities.by_handle(state.DescriptorHandle)
+                if ent is None or shandle not in ent.states:
+                    raise Skip  # (a concurrent writer removed it after the look-up above)
                 st_ = ent.states[shandle]
                 self._apply(st_, spec, PROTECTED)
                 if assoc:
@@ -545,6 +553,8 @@ class Interp:
             raise Skip
         with self._tx('context') as mgr:
             ent = self.mdib.entities.by_handle(state.DescriptorHandle)
+            if ent is None or shandle not in ent.states:
+                raise Skip  # (a concurrent writer removed it after the look-up above)
             del ent.states[shandle]
             self._body_point()
             mgr.write_entity(ent, [shandle])
@@ -661,6 +671,8 @@ class Interp:
             self._apply(d, spec, DESCR_PROTECTED)
         else:
             ent = self.mdib.entities.by_handle(handle)
+            if ent is None:
+                raise Skip  # (a concurrent writer removed the descriptor after the look-up above)
             self._apply(ent.descriptor, spec, DESCR_PROTECTED)
             mgr.write_entity(ent)
         info['touched'].add(handle)
